@@ -78,7 +78,9 @@ def observe(case):
         rec['tr0'] = rproj(rd, True)
         chk = rd  # to_rdkit_molecule sanitises; sanitising again makes RDKit forget E/Z labels that have no direction marks (RDKit behaviour)
         if case.get('explicit'):
-            chk = Chem.RemoveHs(chk)  # the reference reading has no hydrogen atoms
+            # the reference reading has no hydrogen atoms; RemoveHs() forgets E/Z labels whose reference atom is a removed hydrogen,
+            # RDKit's own text round trip (direction marks) keeps them
+            chk = Chem.MolFromSmiles(Chem.MolToSmiles(chk))
         rec['rs_conv'], rec['rs_conv0'] = Chem.MolToSmiles(chk), Chem.MolToSmiles(chk, isomericSmiles=False)
         rec['rs_ref'], rec['rs_ref0'] = Chem.MolToSmiles(ref), Chem.MolToSmiles(ref, isomericSmiles=False)
         bk = from_rdkit_molecule(to_rdkit_molecule(m))
